@@ -121,3 +121,133 @@ def kinds_at_next_read(fn, assign_node, xterm):
             if s is not None:
                 work.append((s, 0, st))
     return results
+
+
+# ------------------------------------------------------------------------------------------------
+# Flow-sensitive tracking of iterator-valued locals through the CFG.
+#
+# States: a kind tuple (kind, key, lo, hi); ('START',) for "a position that is only known to be a start of a
+# forward scan" (e.g. the beginning of the routing window); None for unknown / conflicting.
+# Edge refinement (the linear-scan idiom): leaving the loop  `for (; KEYOF(next(X)) <= K; ++X)`  on its false
+# edge means next(X) is the first element > K, i.e. X is LAST_LE(K) - given that the scan started at or before
+# the predecessor (numeric, stated as an assumption by the rules that use it).
+
+START = ('START',)
+
+
+def _scan_cond(fn, c):
+    """(X term, key term) if condition c is `*next(X) <= K` or `next(X)->key <= K`"""
+    c = fn.strip(c)
+    if not c:
+        return None
+    t = fn.term(c, inline=False)
+    if t[0] == 'op' and len(t) == 4 and t[1] == '<=':
+        lhs, rhs = t[2], t[3]
+        # unwrap `.key` / user conversion
+        if lhs[0] == 'field' and lhs[1] == 'key':
+            lhs = lhs[2]
+        if lhs[0] == 'conv':
+            lhs = lhs[2]
+        if lhs[0] == 'deref':
+            inner = lhs[1]
+            if inner[0] == 'call' and inner[1] == 'std::next' and (len(inner[2]) == 1 or (len(inner[2]) == 2 and _is_one(inner[2][1]))):
+                x = inner[2][0]
+                if x[0] == 'local':
+                    return x, rhs
+    return None
+
+
+def track(fn, var_ids):
+    """abstract interpretation of the locals in var_ids; returns state_before[(block, idx)] -> {var_id: state}
+    and a helper to query the state just before a CFG element node"""
+    g = graph(fn)
+    IN = {}
+    work = [g.entry]
+    IN[g.entry] = {}
+    before = {}
+
+    def join(a, b):
+        out = {}
+        for v in set(a) | set(b):
+            if v in a and v in b:
+                out[v] = a[v] if a[v] == b[v] else None
+            else:
+                out[v] = a.get(v, b.get(v))
+        return out
+
+    def rhs_state(rhs_node, st):
+        t = fn.term(rhs_node, inline=False)
+        if t[0] == 'local' and t[2] in st:
+            return st[t[2]]
+        k = kind_of_term(fn.term(rhs_node, inline=True))
+        if k:
+            return k
+        # prev/next of a tracked local
+        if t[0] == 'call' and t[1] in ('std::prev', 'std::next') and t[2] and t[2][0][0] == 'local' and t[2][0][2] in st:
+            s0 = st[t[2][0][2]]
+            if s0 and s0 != START:
+                return shift(s0, -1 if t[1] == 'std::prev' else +1)
+            return None
+        return START
+
+    iters = 0
+    while work and iters < 5000:
+        iters += 1
+        b = work.pop()
+        st = dict(IN[b])
+        blk = g.blocks[b]
+        for idx, e in enumerate(blk['elems']):
+            before[(b, idx)] = dict(st)
+            nd = fn.n(e)
+            c = nd['c']
+            if c == 'DeclStmt':
+                for v in nd.get('vars', []):
+                    if v['id'] in var_ids:
+                        st[v['id']] = rhs_state(v['init'], st) if v['init'] else None
+            elif (c == 'BinaryOperator' and nd['op'] == '=') or (c == 'CXXOperatorCallExpr' and nd.get('op') == '=' and len(nd.get('args', [])) == 2):
+                lhs = nd['ch'][0] if c == 'BinaryOperator' else nd['args'][0]
+                rhs = nd['ch'][1] if c == 'BinaryOperator' else nd['args'][1]
+                v = fn.var_of(lhs)
+                if v in var_ids:
+                    st[v] = rhs_state(rhs, st)
+            elif (c == 'UnaryOperator' and nd['op'] in ('++', '--')) or (c == 'CXXOperatorCallExpr' and nd.get('op') in ('++', '--')):
+                tgt = nd['ch'][0] if c == 'UnaryOperator' else nd['args'][0]
+                v = fn.var_of(tgt)
+                if v in var_ids:
+                    s0 = st.get(v)
+                    if s0 == START:
+                        st[v] = START
+                    else:
+                        st[v] = shift(s0, +1 if nd.get('op') == '++' else -1)
+            elif c in ('CompoundAssignOperator',) or (c == 'CXXOperatorCallExpr' and nd.get('op') in ('+=', '-=')):
+                tgt = nd['ch'][0] if c == 'CompoundAssignOperator' else nd['args'][0]
+                v = fn.var_of(tgt)
+                if v in var_ids:
+                    st[v] = None
+        before[(b, len(blk['elems']))] = dict(st)
+        cond = g.cond(b)
+        sc = _scan_cond(fn, cond) if cond else None
+        for (s, lab) in g.out_edges(b):
+            if s is None:
+                continue
+            out = dict(st)
+            if sc and lab is False:
+                x, key = sc
+                if x[2] in var_ids and out.get(x[2]) in (START,) + tuple([out.get(x[2])] if (out.get(x[2]) and out.get(x[2])[0] == 'LAST_LE') else []):
+                    out[x[2]] = ('LAST_LE', key, None, None)
+            if s not in IN:
+                IN[s] = out
+                work.append(s)
+            else:
+                j = join(IN[s], out)
+                if j != IN[s]:
+                    IN[s] = j
+                    work.append(s)
+
+    def state_before(node, var_id):
+        pos = fn.block_of(node)
+        if not pos:
+            return None
+        return before.get((pos[0], pos[1]), {}).get(var_id)
+
+    return state_before
